@@ -239,13 +239,13 @@ def concretizer(kind, seed=0, budget=8000):
     """concretize(model, obligation_name) for pyvc: find a real input violating the executable contract (cached per run)"""
     def conc(model, name):
         if kind not in _search_cache:
-            fn = {"collect_quantity": search_collect_quantity, "gate": search_gate}[kind]
+            fn = {"collect_quantity": search_collect_quantity, "gate": search_gate, "convert": search_convert}[kind]
             _search_cache[kind] = fn(seed, budget)
         t, why, n = _search_cache[kind]
         if t is None:
             return {"reproduced": False, "script": None, "output": f"no disagreement among {n} enumerated real inputs"}
-        if kind == "gate":
-            script = ("from vf.contracts.refimpl import replay_gate\n" f"replay_gate({t!r})\n")
+        if kind in ("gate", "convert"):
+            script = (f"from vf.contracts.refimpl import replay_{kind}\n" f"replay_{kind}({t!r})\n")
         else:
             script = ("from vf.contracts.refimpl import replay_tree\n" f"replay_tree({kind!r}, {seed}, {n})\n")
         return {"reproduced": True, "script": script, "inputs": str(t), "output": why}
@@ -429,5 +429,69 @@ def replay_gate(key):
     else:
         args, exps = gate_pool()
         why = check_gate(args[key[0]], exps[key[1]])
+    assert why is None, why
+    print("contract holds on this input")
+
+
+# ------------------------------------------------------------------------------------------------ C07 reference
+def convert_pool():
+    u = _units()
+    from symplyphysics import Quantity
+    return [u.meter, u.kilometer, u.centimeter, u.second, u.millisecond, u.hour, u.gram, u.kilogram, u.newton, u.joule, u.kelvin, u.radian, u.degree,
+            u.meter / u.second, u.kilometer / u.hour, u.kilogram * u.meter**2 / u.second**2, Quantity(3 * u.kilojoule if hasattr(u, "kilojoule") else 3000 * u.joule),
+            Quantity(5), sp.Integer(2), Quantity(0 * u.meter), u.ampere * u.second, u.coulomb, u.mole, u.candela]
+
+
+def check_convert(i, j):
+    from symplyphysics.core.convert import convert_to, convert_to_si
+    from symplyphysics.core.dimensions import dimension_to_si_unit
+    from symplyphysics import Quantity
+    pool = convert_pool()
+    a, b = pool[i], pool[j]
+    qa, qb = Quantity(a), Quantity(b)
+    if qb.scale_factor == 0:
+        return None
+    same = is_any_value(qa.scale_factor) or dims_equiv(dim_vec(qa.dimension), dim_vec(qb.dimension), erase_angle=True)
+    try:
+        n = convert_to(a, b)
+        got = "ok"
+    except Exception as e:
+        got, n = type(e).__name__, None
+    if same and got != "ok":
+        return f"convert_to({a}, {b}) refused ({got}) although dimensions are equivalent"
+    if not same and got == "ok":
+        return f"convert_to({a}, {b}) returned {n} although dimensions are inequivalent"
+    if same and sp.simplify(n * qb.scale_factor - qa.scale_factor) != 0:
+        return f"convert_to({a}, {b}) = {n}: n*unit != quantity"
+    if i == j:
+        si = dimension_to_si_unit(qa.dimension)
+        qsi = Quantity(si)
+        dv = dim_vec(qa.dimension)
+        if not dims_equiv(dim_vec(qsi.dimension), dv, erase_angle=True):
+            return f"dimension_to_si_unit({qa.dimension}) = {si} has another dimension"
+        if sp.simplify(qsi.scale_factor - sp.Integer(1000) ** dv.get("mass", 0)) != 0:
+            return f"dimension_to_si_unit({qa.dimension}) = {si} has scale {qsi.scale_factor}, expected 1000^{dv.get('mass', 0)}"
+        if sp.simplify(convert_to_si(a) * qsi.scale_factor - qa.scale_factor) != 0:
+            return f"convert_to_si({a}) * scale(SI unit) != scale"
+    return None
+
+
+def search_convert(seed=0, budget=0):
+    n = 0
+    m = len(convert_pool())
+    for i in range(m):
+        for j in range(m):
+            n += 1
+            try:
+                why = check_convert(i, j)
+            except Exception as e:
+                why = f"check crashed: {type(e).__name__}: {e}"
+            if why:
+                return (i, j), why, n
+    return None, None, n
+
+
+def replay_convert(key):
+    why = check_convert(*key)
     assert why is None, why
     print("contract holds on this input")
